@@ -1001,8 +1001,8 @@ def _inline_new_constants(tree, modname):
 
     def numeric(e):
         if isinstance(e, ast.Constant):
-            return isinstance(e.value, (int, float)) and \
-                not isinstance(e.value, bool)
+            # (any constant: a number, None, a truth value, a string)
+            return True
         if isinstance(e, ast.BinOp) and isinstance(
                 e.op, (ast.Add, ast.Sub, ast.Mult, ast.FloorDiv, ast.Mod,
                        ast.LShift, ast.RShift, ast.BitAnd, ast.BitOr,
